@@ -558,15 +558,25 @@ Section Tracker.
   Lemma inv_with_broker (st : tracker) b : inv st -> inv (with_broker st b).
   Proof. intros [ND KEY OLD SORT LEN]. constructor; simpl; auto. Qed.
 
+  (* assignments to ttl_in_seconds / stream_is_ordered = False: the table is untouched, and a table that satisfies the
+     invariants of ordered mode satisfies those of unordered mode *)
+  Lemma inv_with_ttl (st : tracker) t : inv st -> inv (with_ttl st t).
+  Proof. intros [ND KEY OLD SORT LEN]. constructor; simpl; auto. Qed.
+
+  Lemma inv_unordered (st : tracker) : inv st -> inv (with_ordered st false).
+  Proof. intros [ND KEY OLD SORT LEN]. constructor; simpl; auto. discriminate. Qed.
+
   Theorem step_inv (st : tracker) op : inv st -> inv (r_state (trk_step nattrs st op)).
   Proof.
-    intros I. destruct op as [now msg ts|now|m|ev cb|ev cb]; simpl.
+    intros I. destruct op as [now msg ts|now|m|ev cb|ev cb|newttl|]; simpl.
     - destruct (update_spec st now msg ts I) as [[_ E]|(_ & I2 & E)]; rewrite E; simpl; [assumption|].
       destruct (cleanup_spec _ now I2) as (del & o' & calls & Ec & Ic & _). rewrite Ec. exact Ic.
     - destruct (cleanup_spec _ now I) as (del & o' & calls & Ec & Ic & _). rewrite Ec. exact Ic.
     - rewrite pop_track_spec by apply I. destruct (idict_get (t_tracks st) m); simpl; [now apply inv_without | assumption].
     - now apply inv_with_broker.
     - now apply inv_with_broker.
+    - now apply inv_with_ttl.
+    - now apply inv_unordered.
   Qed.
 
   (* the states reachable from a fresh tracker *)
@@ -657,7 +667,7 @@ Section Tracker.
     intros R ET NP res. apply reachable_inv in R. subst res.
     assert (CL : forall st2 now, inv st2 -> t_ttl st2 = None -> trk_cleanup st2 now = (st2, [])).
     { intros st2 now _ E2. unfold trk_cleanup. now rewrite E2. }
-    destruct op as [now msg ts|now|m|ev cb|ev cb]; simpl.
+    destruct op as [now msg ts|now|m|ev cb|ev cb|newttl|]; simpl.
     - destruct (update_spec st now msg ts R) as [[_ E]|(_ & I2 & E)]; rewrite E; simpl.
       + split; [reflexivity | apply incl_refl].
       + destruct (after_insert_cfg st (m_mmsi msg) (trk_msg_to_track nattrs msg ts now)) as (Ettl & _ & _ & Etr).
@@ -667,6 +677,8 @@ Section Tracker.
         apply filter_In. split; [assumption|]. apply negb_true_iff. now apply Z.eqb_neq.
     - rewrite (CL _ now R ET). simpl. split; [reflexivity | apply incl_refl].
     - exfalso. now apply (NP m).
+    - split; [reflexivity | apply incl_refl].
+    - split; [reflexivity | apply incl_refl].
     - split; [reflexivity | apply incl_refl].
     - split; [reflexivity | apply incl_refl].
   Qed.
@@ -808,7 +820,7 @@ Section Tracker.
   Proof.
     intros I res. subst res. rewrite events_of_calls.
     assert (SAME : forall b, [] = sp_expected_events None m b b) by (intros []; reflexivity).
-    destruct op as [now msg ts|now|m1|ev cb|ev cb]; simpl.
+    destruct op as [now msg ts|now|m1|ev cb|ev cb|newttl|]; simpl.
     - destruct (update_spec st now msg ts I) as [[_ E]|(_ & I2 & E)]; rewrite E; simpl; [split; [apply SAME | auto]|].
       set (m0 := m_mmsi msg) in *. set (new := trk_msg_to_track nattrs msg ts now) in *.
       destruct (upd_result_facts st m0 new I) as (Rm & _); [apply msg_to_track_facts | apply msg_to_track_facts|].
@@ -831,6 +843,8 @@ Section Tracker.
       destruct (Z.eqb_spec m m1) as [->|N]; simpl.
       + unfold idict_mem. rewrite G. split; [reflexivity | discriminate].
       + split; [apply SAME | auto].
+    - split; [apply SAME | auto].
+    - split; [apply SAME | auto].
     - split; [apply SAME | auto].
     - split; [apply SAME | auto].
   Qed.
@@ -893,6 +907,8 @@ Section Tracker.
     | OpUpdate now msg ts => SpUpdate now (m_mmsi msg) (map present (m_attrs msg)) ts
     | OpCleanup now => SpCleanup now
     | OpPop m => SpPop m
+    | OpSetTtl t => SpSetTtl t
+    | OpUnordered => SpUnordered
     | _ => SpOther
     end.
 
@@ -1036,7 +1052,7 @@ Section Tracker.
     let res := trk_step nattrs st op in
     refines (r_state res) (sp_step (t_ordered st) log (abs_op op) (deleted_mmsis (r_calls res))).
   Proof.
-    intros I R res. subst res. destruct op as [now msg ts|now|m1|ev cb|ev cb]; simpl.
+    intros I R res. subst res. destruct op as [now msg ts|now|m1|ev cb|ev cb|newttl|]; simpl.
     - fold (msg_ts ts now).
       assert (Elu : tr_lu (trk_msg_to_track nattrs msg ts now) = msg_ts ts now) by apply msg_to_track_facts.
       pose proof (rejected_iff st log (m_mmsi msg) (msg_ts ts now) I R) as RJ.
@@ -1052,12 +1068,16 @@ Section Tracker.
       + destruct (Z.eqb_spec m m1) as [->|N]; [now rewrite G | exact R].
     - exact R.
     - exact R.
+    - exact R.
+    - exact R.
   Qed.
 
+  (* only the two configuration operations change the configuration *)
   Lemma step_cfg (st : tracker) op : inv st ->
-    t_ordered (r_state (trk_step nattrs st op)) = t_ordered st /\ t_ttl (r_state (trk_step nattrs st op)) = t_ttl st.
+    t_ordered (r_state (trk_step nattrs st op)) = sp_mode (t_ordered st) (abs_op op) /\
+    t_ttl (r_state (trk_step nattrs st op)) = sp_ttl_after (t_ttl st) (abs_op op).
   Proof.
-    intros I. destruct op as [now msg ts|now|m1|ev cb|ev cb]; simpl; auto.
+    intros I. destruct op as [now msg ts|now|m1|ev cb|ev cb|newttl|]; simpl; auto.
     - destruct (update_spec st now msg ts I) as [[_ E]|(_ & I2 & E)]; rewrite E; simpl; [auto|].
       destruct (cleanup_spec _ now I2) as (del & o' & calls & Ec & _). rewrite Ec. simpl.
       destruct (after_insert_cfg st (m_mmsi msg) (trk_msg_to_track nattrs msg ts now)) as (-> & -> & _). auto.
@@ -1236,7 +1256,7 @@ Section Exact.
   Theorem step_refines_exact (st : tracker) log op : inv nattrs st -> refines nattrs st log ->
     refines nattrs (r_state (trk_step nattrs st op)) (sp_step_exact (t_ttl st) (t_ordered st) log (abs_op op)).
   Proof.
-    intros I R. destruct op as [now msg ts|now|m1|ev cb|ev cb].
+    intros I R. destruct op as [now msg ts|now|m1|ev cb|ev cb|newttl|].
     - simpl. fold (msg_ts ts now).
       assert (Elu : tr_lu (trk_msg_to_track nattrs msg ts now) = msg_ts ts now) by apply msg_to_track_facts.
       pose proof (rejected_iff nattrs st log (m_mmsi msg) (msg_ts ts now) I R) as RJ.
@@ -1250,11 +1270,13 @@ Section Exact.
     - apply (step_refines nattrs st log (OpPop m1) I R).
     - exact R.
     - exact R.
+    - exact R.
+    - exact R.
   Qed.
 
   Lemma run_refines_exact : forall h (st : tracker) log, inv nattrs st -> refines nattrs st log ->
     refines nattrs (fst (trk_run nattrs st h))
-            (fold_left (sp_step_exact (t_ttl st) (t_ordered st)) (map abs_op h) log).
+            (sp_run_exact_from (t_ttl st) (t_ordered st) log (map abs_op h)).
   Proof.
     induction h as [|op r IH]; intros st log I R; simpl; [exact R|].
     destruct (trk_run nattrs (r_state (trk_step nattrs st op)) r) as [st' rs] eqn:ER. simpl.
@@ -1274,7 +1296,8 @@ Section Reachable.
   Variable nattrs : nat.
 
   Lemma step_cfg_reachable (st : trk_tracker V) op : reachable nattrs st ->
-    t_ordered (r_state (trk_step nattrs st op)) = t_ordered st /\ t_ttl (r_state (trk_step nattrs st op)) = t_ttl st.
+    t_ordered (r_state (trk_step nattrs st op)) = sp_mode (t_ordered st) (abs_op op) /\
+    t_ttl (r_state (trk_step nattrs st op)) = sp_ttl_after (t_ttl st) (abs_op op).
   Proof. intros R. apply step_cfg. now apply reachable_inv. Qed.
 
   Lemma step_events_reachable (st : trk_tracker V) op m : reachable nattrs st ->
